@@ -1,9 +1,10 @@
 // S-harness for cocls::queue<item_t>, cocls::queue<void> and cocls::limited_queue<item_t> (C09, C10).
 // Reads cases from stdin, prints one canonical line per operation (see lean/Drivers/C09.lean, C10.lean).
-// Kinds: `lq <limit> [nl]` (C10 sequential, run_case), `q [nl|s1|w1|s1w1|w1m|vec]` / `vq [nl|w1]` (C09 sequential, run_qcase;
+// Kinds: `lq <limit> [nl|cp]` (C10 sequential, run_case; nl = Lock no_lock, cp = the copy-only item type citem_t; throwing items:
+// `pushthrow`, `pushmv v g [n]`, `popthrow g [n]`, `cothrow g [n]`, `upushthrow c [g [n]]` - see ho_set), `q [nl|s1|w1|s1w1|w1m|vec]` / `vq [nl|w1]` (C09 sequential, run_qcase;
 // the token selects the Queue / CoroQueue / Lock template arguments: s1 = Queue single_item_queue, w1 = CoroQueue
 // single_item_queue, nl = primitives::no_lock (implied by s1/w1; w1m keeps std::mutex)),
-// `sq` / `svq` / `slq <limit>` (C09 / C10 scheduled interleavings, run_sched), `mtq` / `mtv` (C09 threads, run_mtcase).
+// `sq` / `svq` / `slq <limit> [cp]` (C09 / C10 scheduled interleavings, run_sched), `mtq` / `mtv` (C09 threads, run_mtcase).
 #include "common.h"
 #include <atomic>
 #include <cocls/queue.h>
